@@ -12,7 +12,7 @@ LEAN_DIR = os.path.join(VERIF, "lean")
 STREAM_EXE = {"trie": "pm_trie", "mid": "pm_mid", "validate": "pm_validate", "session": "pm_session",
               "session-inv": "pm_session", "props": "pm_props", "codec": "pm_codec", "decode": "pm_decode",
               "reader": "pm_reader", "loopforever": "pm_lf", "dispatch": "pm_dispatch", "helpers": "pm_helpers",
-              "threads": "pm_threads", "ws": "pm_ws", "wsbad": "pm_ws", "wsreader": "pm_wsreader", "wswriter": "pm_wswriter"}
+              "threads": "pm_threads", "ws": "pm_ws", "wsbad": "pm_ws", "wsreader": "pm_wsreader", "wswriter": "pm_wswriter", "tcpwriter": "pm_wswriter"}
 EXE_ROOT = {"pm_trie": "Main.Trie", "pm_mid": "Main.Mid", "pm_validate": "Main.Validate", "pm_session": "Main.Session",
             "pm_props": "Main.Props", "pm_codec": "Main.Codec", "pm_decode": "Main.Decode", "pm_reader": "Main.Reader",
             "pm_lf": "Main.LF", "pm_dispatch": "Main.Dispatch", "pm_helpers": "Main.Helpers", "pm_threads": "Main.Threads",
